@@ -609,6 +609,16 @@ func init() {
 				}
 			}
 			g.deviceFaults(p, []string{"conn-down", "conn-replace", "dev-restart", "dev-restart", "dev-drop"}, 3)
+			if g.chance(1, 2) {
+				// faults that land while a southbound Set is in flight - an apply, or one of the pushes of a
+				// re-synchronisation (a second restart while the first one is still being repaired)
+				p.Profile = "device-convergence+inflight"
+				for i := 0; i <= g.pick(2); i++ {
+					t := p.Knobs.Targets[g.pick(len(p.Knobs.Targets))]
+					k := []string{"dev-restart", "dev-restart", "conn-replace", "conn-down"}[g.pick(4)]
+					p.Faults = append(p.Faults, Fault{Kind: k, Target: t, On: "during-devset", N: 1 + g.pick(8)})
+				}
+			}
 			return p
 		},
 		Arm: func(s *Sys) { s.Mon = append(s.Mon, &c04{s: s}) },
@@ -629,6 +639,14 @@ func init() {
 			g.deviceFaults(p, []string{"conn-down", "conn-replace", "conn-replace", "dev-restart"}, 4)
 			if len(p.Faults) == 0 {
 				p.Faults = append(p.Faults, Fault{Kind: "conn-replace", Target: p.Knobs.Targets[0], On: "step", N: 100 + g.pick(600)})
+			}
+			if g.chance(1, 3) {
+				p.Profile = "mastership+inflight"
+				for i := 0; i <= g.pick(2); i++ {
+					t := p.Knobs.Targets[g.pick(len(p.Knobs.Targets))]
+					k := []string{"dev-restart", "conn-replace", "conn-replace", "conn-down"}[g.pick(4)]
+					p.Faults = append(p.Faults, Fault{Kind: k, Target: t, On: "during-devset", N: 1 + g.pick(8)})
+				}
 			}
 			return p
 		},
@@ -671,6 +689,17 @@ func init() {
 			}
 			if g.chance(1, 4) {
 				g.deviceFaults(p, []string{"conn-down", "dev-drop", "conn-replace"}, 2)
+			}
+			if g.chance(1, 3) {
+				// the store write that records the device's answer fails, or its acknowledgement is lost: the reconcile
+				// is retried on a half-recorded outcome
+				p.Profile = "device-errors+store-faults"
+				nf := len(p.Faults)
+				for i := 0; i < nf && i < 2; i++ {
+					if f0 := p.Faults[i]; f0.Kind == "dev-error" {
+						p.Faults = append(p.Faults, Fault{Kind: []string{"op-unavail", "op-acklost"}[g.pick(2)], On: "after-devset", Target: f0.Target, N: f0.N, Burst: g.pick(3)})
+					}
+				}
 			}
 			return p
 		},
